@@ -16,6 +16,9 @@ use crate::prng::Xoshiro;
 use std::sync::{Arc, Condvar, Mutex};
 use std::time::Duration;
 
+/// scheduling decisions per run are bounded
+const MAX_SCHEDULED_YIELDS: u64 = 3000;
+
 pub struct Coop {
     inner: Mutex<Inner>,
     cv: Condvar,
@@ -98,7 +101,8 @@ impl Coop {
         g.yields += 1;
         g.progress += 1;
         g.sites[(site as usize).min(7)] += 1;
-        if g.stalled {
+        if g.stalled || g.yields > MAX_SCHEDULED_YIELDS {
+            // (bounded runs: past this many yield points the running thread simply runs on)
             return;
         }
         let den = g.switch_den;
